@@ -227,9 +227,9 @@ func (am *AccountingManager) Stop() error {
 	am.logger.Info("Stopping accounting manager")
 
 	// Drain sessions if configured
-	var drained []string
+	var acked, queued []string
 	if am.config.DrainOnShutdown {
-		drained = am.drainAllSessions()
+		acked, queued = am.drainAllSessions()
 	}
 
 	// Stop the workers first: a record that the retry worker delivers after
@@ -237,14 +237,19 @@ func (am *AccountingManager) Stop() error {
 	am.cancel()
 	am.wg.Wait()
 
+	// A drained session whose Stop has been acknowledged must not be recovered
+	// as an orphan (and stopped a second time) on the next startup.
+	for _, sessionID := range acked {
+		am.removePersistedSession(sessionID)
+	}
+
 	// Persist pending records before shutdown
 	if err := am.persistPendingRecords(); err != nil {
 		am.logger.Warn("Failed to persist pending records", zap.Error(err))
 	} else {
-		// The Stop of every drained session has been acknowledged or is now
-		// durably queued: the session must not be recovered as an orphan (and
-		// stopped a second time) on the next startup.
-		for _, sessionID := range drained {
+		// The Stop of the other drained sessions is now durably queued. (If it
+		// is not, their files stay: orphan recovery is what still stops them.)
+		for _, sessionID := range queued {
 			am.removePersistedSession(sessionID)
 		}
 	}
@@ -676,9 +681,10 @@ func (am *AccountingManager) retryPendingRecords() {
 	}
 }
 
-// drainAllSessions sends Accounting-Stop for all active sessions and returns
-// the IDs of the sessions whose Stop was sent or queued.
-func (am *AccountingManager) drainAllSessions() []string {
+// drainAllSessions sends Accounting-Stop for all active sessions. It returns
+// the IDs of the sessions whose Stop was acknowledged and of those whose Stop
+// was queued for the next startup.
+func (am *AccountingManager) drainAllSessions() (acked, queued []string) {
 	am.logger.Info("Draining all sessions for shutdown")
 
 	am.sessionsMu.RLock()
@@ -694,14 +700,17 @@ func (am *AccountingManager) drainAllSessions() []string {
 
 	var wg sync.WaitGroup
 	var drainedMu sync.Mutex
-	var drained []string
 	for _, session := range sessions {
 		wg.Add(1)
 		go func(s *AccountingSession) {
 			defer wg.Done()
-			am.sendAccountingStopSync(ctx, s, TerminateCauseNASReboot)
+			ok := am.sendAccountingStopSync(ctx, s, TerminateCauseNASReboot)
 			drainedMu.Lock()
-			drained = append(drained, s.SessionID)
+			if ok {
+				acked = append(acked, s.SessionID)
+			} else {
+				queued = append(queued, s.SessionID)
+			}
 			drainedMu.Unlock()
 		}(session)
 	}
@@ -724,11 +733,12 @@ func (am *AccountingManager) drainAllSessions() []string {
 
 	drainedMu.Lock()
 	defer drainedMu.Unlock()
-	return append([]string(nil), drained...)
+	return append([]string(nil), acked...), append([]string(nil), queued...)
 }
 
-// sendAccountingStopSync sends an Accounting-Stop synchronously with the given context
-func (am *AccountingManager) sendAccountingStopSync(ctx context.Context, session *AccountingSession, terminateCause uint32) {
+// sendAccountingStopSync sends an Accounting-Stop synchronously with the given context.
+// It reports whether the Stop was acknowledged; if not, it has been queued.
+func (am *AccountingManager) sendAccountingStopSync(ctx context.Context, session *AccountingSession, terminateCause uint32) bool {
 	counters := am.fetchCounters(session.SessionID)
 	sessionTime := uint32(time.Since(session.StartTime).Seconds())
 
@@ -755,7 +765,9 @@ func (am *AccountingManager) sendAccountingStopSync(ctx context.Context, session
 		)
 		// Queue for persistence - will be recovered on next startup
 		am.queuePendingRecord(req)
+		return false
 	}
+	return true
 }
 
 // Persistence methods for crash recovery
